@@ -643,6 +643,21 @@ class Scenario:
                 self.A = Slot(pr)
                 return "ok"
             return self.guarded("A.read", f)
+        if k == "construct":
+            def f():
+                import montepy
+                p = os.path.join(self.dir, "A.i")
+                with open(p, "w", newline="") as fh:
+                    fh.write(self.case["A"]["text"])
+                self.pending = montepy.MCNP_Problem(p)
+                return "ok"
+            return self.guarded("A.construct", f)
+        if k == "parse":
+            def f():
+                self.pending.parse_input()
+                self.A = Slot(self.pending)
+                return "ok"
+            return self.guarded("A.parse", f)
         if A is None:
             return "noproblem"
         pr, h = A.pr, A.h
@@ -881,7 +896,8 @@ def gen_case(rng, latch_props, latch_rate=0.15):
             extras.append({"s": "observe"})
     for x in extras:
         steps.insert(rng.randint(0, len(steps)), x)
-    steps = [{"s": "read"}] + steps
+    # reading = constructing the problem, then parsing it: sometimes with unrelated operations in between
+    steps = ([{"s": "read"}] if rng.random() < 0.7 else [{"s": "construct"}, {"s": "parse"}]) + steps
     if rng.random() < 0.5:
         steps.append({"s": "observe"})
     steps.append({"s": "write", "version": list(rng.choice(VERSIONS))})
@@ -1290,6 +1306,8 @@ def shrink_history(case, failing):
         for j in range(len(steps) - 1, 0, -1):
             if budget <= 0:
                 break
+            if steps[j]["s"] in ("parse", "read", "construct"):
+                continue
             cand = json.loads(json.dumps(cur))
             del cand["A"]["steps"][j]
             if j + 1 < len(cand["noise"]):
